@@ -13,7 +13,9 @@ MANIFEST = {
  'technique': 'Lean 4 proof (induction over operation sequences with invariants) + table extraction + differential correspondence',
  'design_ref': 'DESIGN.md §6 C19',
 }
-THEOREMS = ['C19.tables_ok']
+THEOREMS = ['C19.tables_ok', 'C19.conservation', 'C19.conservation_life', 'C19.queueMsg_refused_iff',
+            'C19.queueMsg_refused_state', 'C19.queueMsg_accepted', 'C19.priority', 'C19.fast_first', 'C19.fifo',
+            'C19.fifo_run', 'C19.quit_drains']
 TRUSTED = ['Lean 4.33.0 kernel; axioms ⊆ {propext, Classical.choice, Quot.sound}',
            'harness/extractors/ircqueue.py (_high, _low, rate-limited command, echo-emulated commands → Gen/IrcQueue.lean)',
            'harness/c19.py generators, instrumentation (virtual clock, stub driver, recording outFilter callbacks), canonicalisation; hex line protocol',
